@@ -69,18 +69,18 @@ impl AsRef<str> for Label {
 
 impl PartialEq<&str> for Label {
     fn eq(&self, other: &&str) -> bool {
-        self.0.to_lowercase() == other.to_lowercase()
+        self.0.eq_ignore_ascii_case(other)
     }
 }
 
 impl PartialEq<Label> for Label {
     fn eq(&self, other: &Label) -> bool {
-        self.0.to_lowercase() == other.0.to_lowercase()
+        self.0.eq_ignore_ascii_case(&other.0)
     }
 }
 
 impl Hash for Label {
     fn hash<H: Hasher>(&self, state: &mut H) {
-        self.0.to_lowercase().hash(state);
+        self.0.to_ascii_lowercase().hash(state);
     }
 }
